@@ -40,6 +40,8 @@ def run(ctx):
         b32_bad = vlib.reproduce(ctx, b32, vlib.validate_trace(ctx, "Bech32Trace", e32, label="T_base32"), history=e32)
     except vlib.Infra as ex:
         ctx.skipped.append("driver of the internal package base32 does not build or run against the working tree (skipped): %s" % str(ex)[:200])
+    vlib.call_history_model(ctx)
+    vlib.call_histories(ctx, binp, t, ["bech32.Decode"], "Bech32Trace", "real Decode disagrees with the Bech32 specification")
     nbad = len(ctx.bad)
     bc.judge(ctx, binp, g + t, "real Decode disagrees with the Bech32 specification (acceptance, outputs, re-encoding, offset range or panic)")
     if b32_bad and len(ctx.bad) > nbad:
